@@ -16,7 +16,7 @@
 //!   ll  = (lossy-reader kinds) the value obtained from the lossless reader on the same text
 //! E: answers of the leaf codecs external to the Lean model, `x<key>:x<text>:o<hex>|e<hex>` joined by `,`.
 //!
-//! Worker-side oracle (the property): p2 = p1 and t2 = t1 (raw, not normalised); ll = same on text
+//! Worker-side oracle (the property): p2 = p1 and t2 = t1; ll = same on text
 //! both readers accept; apt Package: the typed lossless accessor shows the same Description-md5.
 use crate::derive::{external_for_key, struct_row, LL, LP};
 use crate::util::*;
@@ -28,27 +28,12 @@ fn items_lp(p: &LP) -> Vec<(String, String)> {
     p.iter().map(|(k, v)| (k.to_string(), v.to_string())).collect()
 }
 
-/// hash-order dependent leaf values are shown with their pieces sorted (observable only)
-fn norm_value(id: &str, k: &str, v: &str) -> String {
-    if id == "aptsources.Repository" && k == "Types" {
-        let mut t: Vec<&str> = v.split('\n').collect();
-        t.sort();
-        t.join("\n")
-    } else if id == "buildinfo.Buildinfo" && k == "Environment" {
-        let mut t: Vec<&str> = v.split_inclusive('\n').collect();
-        t.sort();
-        t.concat()
-    } else {
-        v.to_string()
-    }
-}
-
 fn show_struct(id: &str, items: &[(String, String)]) -> String {
     format!(
         "{}:[{}]:[{}]",
         id,
         elist(&items.iter().map(|x| x.0.clone()).collect::<Vec<_>>()),
-        elist(&items.iter().map(|x| norm_value(id, &x.0, &x.1)).collect::<Vec<_>>())
+        elist(&items.iter().map(|x| x.1.clone()).collect::<Vec<_>>())
     )
 }
 
@@ -63,24 +48,6 @@ impl TV {
             return "empty".to_string();
         }
         self.structs.iter().map(|(id, it)| show_struct(id, it)).collect::<Vec<_>>().join(";")
-    }
-    /// printed text with hash-order dependent values normalised (re-rendered with the lossy printer)
-    fn norm_text(&self) -> String {
-        let hashy = self.structs.iter().any(|(id, it)| {
-            it.iter().any(|(k, v)| (*id == "aptsources.Repository" && k == "Types" && v.contains('\n')) || (*id == "buildinfo.Buildinfo" && k == "Environment" && v.matches('\n').count() > 1))
-        });
-        if !hashy {
-            return self.text.clone();
-        }
-        let paras: Vec<String> = self
-            .structs
-            .iter()
-            .map(|(id, it)| {
-                let p = LP { fields: it.iter().map(|(k, v)| deb822_lossless::lossy::Field { name: k.clone(), value: norm_value(id, k, v) }).collect() };
-                p.to_string()
-            })
-            .collect();
-        paras.join("\n")
     }
 }
 
@@ -219,7 +186,7 @@ pub fn handle(op: &str, a: &[&str]) -> Option<Resp> {
             match r2 {
                 Err(e) => {
                     fail = Some(format!("printed text does not parse back: {} ; text {:?}", show_err(&e), v1.text));
-                    (p1, es(&v1.norm_text()), show_err(&e), "-".to_string())
+                    (p1, es(&v1.text), show_err(&e), "-".to_string())
                 }
                 Ok(v2) => {
                     let p2 = v2.show();
@@ -228,12 +195,12 @@ pub fn handle(op: &str, a: &[&str]) -> Option<Resp> {
                     } else if v2.text != v1.text {
                         fail = Some(format!("second print differs: {:?} vs {:?}", v1.text, v2.text));
                     }
-                    let same_t = v2.norm_text() == v1.norm_text();
+                    let same_t = v2.text == v1.text;
                     (
                         p1.clone(),
-                        es(&v1.norm_text()),
+                        es(&v1.text),
                         if p2 == p1 { "same".to_string() } else { p2 },
-                        if same_t { "same".to_string() } else { es(&v2.norm_text()) },
+                        if same_t { "same".to_string() } else { es(&v2.text) },
                     )
                 }
             }
